@@ -8,7 +8,7 @@ use triomphe::Arc;
 
 fn main() {
     let mut t = Tally::new();
-    for r in 0..rounds(2) {
+    for r in 0..rounds(3) {
         for phase_b in [false, true] {
             let old = 400 + 2 * r as u64 + phase_b as u64;
             let new = old + 500;
